@@ -615,6 +615,9 @@ func main() {
 		}
 	}
 	runLarge(res, o.Shard, o.Shards)
+	if o.Shard == 3%o.Shards && core.Want("views/announcements") {
+		res.AddSub(seqx.Explore(announceConfig(), res))
+	}
 	sig.Cleanup()
 	core.Finish(res, t0)
 }
@@ -644,6 +647,26 @@ func replay(path string) {
 	if err := json.Unmarshal(data, &a); err != nil {
 		fmt.Println(err)
 		os.Exit(2)
+	}
+	if a.Replay.Config == announceConfig().Name {
+		var r struct {
+			Replay struct {
+				Ops []aop `json:"ops"`
+			} `json:"replay"`
+		}
+		json.Unmarshal(data, &r)
+		ops := make([]seqx.Op, len(r.Replay.Ops))
+		for i, x := range r.Replay.Ops {
+			ops[i] = x
+		}
+		v := seqx.Replay(announceConfig(), ops)
+		sig.Cleanup()
+		if v != nil {
+			fmt.Printf("VIOLATION property=C14 replay=%s\n  %s\n", path, v.What)
+			os.Exit(1)
+		}
+		fmt.Println("replay: no violation")
+		return
 	}
 	if a.Replay.Large > 0 {
 		_, v := largeOne(a.Replay.Large)
